@@ -18,6 +18,7 @@ ops (body = list of ops):
   ["raise", bid] ["return"]
   ["cleanup", body, k, after]    try body / except cancel: k shielded cps; "reraise"|"boom"
   ["catch_then", body, then]     try body / except cancel: then (unshielded); re-raise
+  ["catch_mix", body, bid]       try body / except cancel as c: raise ExceptionGroup([c, Boom])
   ["started", v]                 task_status.started(v)    (only inside a start child)
   ["await_handle", tid, how]     how = "wait" | "await"
 agents: {"at": cycle | "t": vtime, "place": before|after, "do": <one of cancel / cancel_task
@@ -187,7 +188,7 @@ class Run:
     def on_abort(self, reason: str) -> None:
         self.ev("loop", "ABORT", reason)
         self.snap = {
-            "blocked": {tid: (r.kind, r.never, self.sh.task_eff(tid), r.cycle)
+            "blocked": {tid: (r.kind, r.never, self.sh.task_eff(tid), r.cycle, self.cause_of(tid))
                         for tid, r in self.inprog.items()},  # fmt: skip
             "cycle": self.cyc(),
         }
@@ -428,6 +429,8 @@ class Run:
                 await self.run_group(tid, op, ctx)
             elif kind == "spawn":
                 self.spawn(tid, op[1], op[2])
+            elif kind == "startcall":
+                await self.start_child(tid, op[1], op[2])
             elif kind == "cleanup":
                 _, body, k, after = op
                 try:
@@ -459,6 +462,17 @@ class Run:
                     self.window("cancel_caught_then_continued")
                     await self.run_ops(tid, then, ctx)
                     raise
+            elif kind == "catch_mix":
+                # re-raise a caught cancellation inside a synthetic exception group next to
+                # an ordinary error: scope exits must strip exactly the cancellation
+                _, body, bid = op
+                try:
+                    await self.run_ops(tid, body, ctx)
+                except asyncio.CancelledError as c:
+                    b = Boom(("mix", bid))
+                    self.ev(tid, "raise-mixed", bid)
+                    self.window("mixed_group_raised")
+                    raise BaseExceptionGroup("mixed", [c, b]) from None
             elif kind == "started":
                 self.do_started(tid, op[1], ctx)
             elif kind == "await_handle":
@@ -554,6 +568,9 @@ class Run:
             if lat > B_CYCLES:
                 self.V("C03", "cancellation-delivered-late",
                        {"tid": tid, "op": rec.kind, "latency_cycles": lat})  # fmt: skip
+                if cause0 in ("member-failed", "body-failed"):
+                    self.V("C02", "remaining-task-not-cancelled-after-failure",
+                           {"tid": tid, "op": rec.kind, "latency_cycles": lat})  # fmt: skip
 
             cause = self.cause_of(tid)
             if cause == "deadline":
@@ -628,6 +645,9 @@ class Run:
                 self.V("C03", "completed-normally-in-cancelled-scope",
                        {"tid": tid, "op": rec.kind, "started_cycle": rec.cycle,
                         "cancelled_since_cycle": since_start[1], "cycle": cyc})  # fmt: skip
+                if self.cause_of(tid) in ("member-failed", "body-failed"):
+                    self.V("C02", "remaining-task-not-cancelled-after-failure",
+                           {"tid": tid, "op": rec.kind, "cause": self.cause_of(tid)})  # fmt: skip
 
             return
 
@@ -1233,13 +1253,35 @@ class Run:
             dup = len(got_nc) != len(set(map(id, got_nc)))
             self.V("C02", "exception-leaves-differ",
                    {"gid": gid, "dropped": missing, "unexpected": extra, "duplicated": dup})  # fmt: skip
+            got_ids = set(map(id, got_nc))
+            for m in g["start_routed"]:
+                # routed to the caller of start(): must not ALSO be collected by the group
+                fin = [x for x in flatten(self.tinfo[m]["final"])
+                       if not isinstance(x, asyncio.CancelledError)]  # fmt: skip
+                for x in fin:
+                    n_exp = sum(1 for y in expected if y is x)
+                    n_got = sum(1 for y in got_nc if y is x)
+                    if n_got > n_exp:
+                        self.V("C07", "start-child-error-surfaced-twice",
+                               {"gid": gid, "child": m, "exc": repr(x)})  # fmt: skip
+
+            for m in g["members"]:
+                if self.tinfo[m].get("how") == "start" and m not in g["start_routed"]:
+                    lost = [x for x in flatten(self.tinfo[m]["final"])
+                            if not isinstance(x, asyncio.CancelledError) and id(x) not in got_ids]  # fmt: skip
+                    if lost:
+                        self.V("C07", "start-child-error-discarded",
+                               {"gid": gid, "child": m, "lost": [repr(x) for x in lost]})  # fmt: skip
 
         if len(expected) >= 2 or (expected and g["body_exc"] is not None and
                                   isinstance(g["body_exc"], asyncio.CancelledError)):  # fmt: skip
             self.nontrivial.add("multi-failure")
 
-        if isinstance(block_exc, BaseExceptionGroup) and got_c and expected:
-            self.V("C02", "cancellation-reported-as-error-leaf", {"gid": gid})
+        if isinstance(block_exc, BaseExceptionGroup) and expected:
+            # (cancellations nested inside a member's own exception group are that
+            # member's business; the task group itself must not add any)
+            if any(isinstance(x, asyncio.CancelledError) for x in block_exc.exceptions):
+                self.V("C02", "cancellation-reported-as-error-leaf", {"gid": gid})
 
         if expected and not isinstance(block_exc, BaseExceptionGroup):
             self.V("C02", "errors-not-raised-as-exception-group",
@@ -1311,6 +1353,8 @@ def execute(program: dict) -> dict:
         if culprits:
             r.V("C03", "deadlock:task-blocked-in-effectively-cancelled-scope",
                 {"blocked": culprits})  # fmt: skip
+            if any(v[4] in ("member-failed", "body-failed") for v in blocked.values() if v[2]):
+                r.V("C02", "remaining-task-not-cancelled-after-failure", {"blocked": culprits})
         else:
             r.window("skipped_unjustified_deadlock")
             r.viol.append(("C00", "unexplained-deadlock", {"blocked": {str(k): v for k, v in
